@@ -202,7 +202,9 @@ SPECS["C05"] = {
                    "DatagramReceiver.Receive loop (generic batch reader, buffer pool rotation, DoneFunc) as a goroutine on a harness PacketConn delivering six datagrams with symbolic "
                    "payloads; the harness takes the batches from the unbuffered output channel and holds them, releasing one (symbolic) in the middle: the payloads of all datagrams "
                    "still held stay intact while later ones are read, what the holder writes into a held buffer stays there, each datagram has its own sender address and a receive time, "
-                   "each is delivered exactly once.",
+                   "each is delivered exactly once. RECYCLE: a datagram is parsed and folded (its metrics return to the pool), then a second one is parsed by the same parser and "
+                   "pool (host-tagged / tagged / shaped lines, ignore-host symbolic): what the second yields equals what it yields with a fresh parser and pool - nothing of the first "
+                   "(source, tags, name, value) leaks through the recycled pool object.",
     "bounds": {"quick": "two lines, each either 2..3 fully symbolic bytes or the shape k:v|t with symbolic k, v, t (valid, invalid, normalised or deleted name); frame: line of 4..5 bytes; <= 3 tags of 1 byte; alias: tags of 1..2 bytes, all four types",
                "thorough": "lines of 4+3 and 3+4 bytes (namespace ns), frame 6 bytes, tags of 2 bytes"},
     "outside": ["more than two lines per datagram (the splitting loop is the same iteration)", "empty lines (an empty middle line is counted as a bad line by the code; "
@@ -212,10 +214,10 @@ SPECS["C05"] = {
     "jobs": [
         {"pkg": "./pkg/statsd", "harness": "pkg/statsd", "mode": "machine",
          "entries": {"quick": ["VerifC05_Concat_S_S", "VerifC05_Concat_S_3", "VerifC05_Concat_2_S", "VerifC05_Concat_MT_ET", "VerifC05_Concat_ET_MT", "VerifC05_Concat_ET_ET",
-                               "VerifC05_Concat_H_MT", "VerifC05_Concat_H_S", "VerifC05_Concat_MT_H", "VerifC05_Concat_S_ET", "VerifC05_Concat_ET_S", "VerifC05_Concat_3_ET", "VerifC05_Receiver", "VerifC05_Frame_4_2", "VerifC05_Frame_5_2", "VerifC05_LastGauge", "VerifC05_IgnoreHost_1_1", "VerifC05_IgnoreHost_2_1",
+                               "VerifC05_Concat_H_MT", "VerifC05_Concat_H_S", "VerifC05_Concat_MT_H", "VerifC05_Concat_S_ET", "VerifC05_Concat_ET_S", "VerifC05_Concat_3_ET", "VerifC05_Receiver", "VerifC05_Recycle_H_MT", "VerifC05_Recycle_H_S", "VerifC05_Recycle_MT_S", "VerifC05_Frame_4_2", "VerifC05_Frame_5_2", "VerifC05_LastGauge", "VerifC05_IgnoreHost_1_1", "VerifC05_IgnoreHost_2_1",
                                "VerifC05_IgnoreHost_3_1", "VerifC05_Alias1", "VerifC05_Alias2", "VerifC05_ConcatTwin"],
                      "thorough": ["VerifC05_Concat_S_S", "VerifC05_Concat_S_3", "VerifC05_Concat_2_S", "VerifC05_Concat_MT_ET", "VerifC05_Concat_ET_MT", "VerifC05_Concat_ET_ET",
-                                  "VerifC05_Concat_H_MT", "VerifC05_Concat_H_S", "VerifC05_Concat_MT_H", "VerifC05_Concat_S_ET", "VerifC05_Concat_ET_S", "VerifC05_Concat_3_ET", "VerifC05_Receiver", "VerifC05_Concat_3_3", "VerifC05_Concat_4_3", "VerifC05_Concat_3_4", "VerifC05_Frame_4_2", "VerifC05_Frame_5_2", "VerifC05_Frame_6_2",
+                                  "VerifC05_Concat_H_MT", "VerifC05_Concat_H_S", "VerifC05_Concat_MT_H", "VerifC05_Concat_S_ET", "VerifC05_Concat_ET_S", "VerifC05_Concat_3_ET", "VerifC05_Receiver", "VerifC05_Recycle_H_MT", "VerifC05_Recycle_H_S", "VerifC05_Recycle_MT_S", "VerifC05_Concat_3_3", "VerifC05_Concat_4_3", "VerifC05_Concat_3_4", "VerifC05_Frame_4_2", "VerifC05_Frame_5_2", "VerifC05_Frame_6_2",
                                   "VerifC05_LastGauge", "VerifC05_IgnoreHost_1_1", "VerifC05_IgnoreHost_2_1", "VerifC05_IgnoreHost_3_1", "VerifC05_IgnoreHost_3_2",
                                   "VerifC05_Alias1", "VerifC05_Alias2", "VerifC05_ConcatTwin"]},
          "reach": {"VerifC05_Concat_S_S": ["bad-and-good", "two-metrics"], "VerifC05_Frame_4_2": ["done"], "VerifC05_LastGauge": ["gauge"],
